@@ -13,9 +13,9 @@
   Kept from the earlier stage (hypothesis `NoLru P`, S3a invariant): `c04_never_shallow`,
   `c04_results_partial`, `c04_results_prog_partial`.
 
-  NOT YET PROVED:
-    c04_dependents_reused (equal value ⇒ backdated ⇒ no `exec` for readers; shown below on a
-                          concrete history only).
+  PROVED ELSEWHERE (Props/C04Core3.lean, all well-formed programs, invariant `InvE`):
+    c04_dependents_reused (equal value ⇒ backdated ⇒ no `exec` for readers, `valid` instead;
+                          direct dependents and chains of readers; a concrete history also below).
 -/
 import SalsaVerif.Model.Core3
 import SalsaVerif.Proofs.Core3Top
